@@ -6,6 +6,7 @@ import (
 	"strings"
 
 	ecdsakeygen "github.com/bnb-chain/tss-lib/v2/ecdsa/keygen"
+	"github.com/bnb-chain/tss-lib/v2/tss"
 
 	"verif/core"
 	"verif/ref"
@@ -145,4 +146,97 @@ func sentProfile(w *sim.World) map[string]string {
 		out[n.Name] = strings.Join(w.SentMultiset(n), ";")
 	}
 	return out
+}
+
+// shortFieldsRun: honest sessions with reproducible per-party randomness, repeated until every message field whose usual
+// encoding is 32 bytes (digests, scalars, coordinates) has also been sent with a shorter one. The senders encode numbers
+// with big.Int.Bytes(), which drops leading zero bytes, so one value in 256 is shorter than usual; every receiver has to
+// take it. A single end-to-end run practically never contains such a value for a given field.
+func shortFieldsRun(r *core.Result, env *core.Env, p core.P, max int) {
+	s, err := sessionFromP(env, p)
+	if err != nil {
+		r.Inconcl("session setup failed: %v", err)
+		return
+	}
+	maxLen, short := map[string]int{}, map[string]int{}
+	first, varies := map[string]string{}, map[string]bool{} // a field that carries the same bytes in every message (the group key) cannot become short
+	defer func() { sim.ParamHook = nil }()
+	allSeen := func() bool {
+		n := 0
+		for k, l := range maxLen {
+			if l == 32 && varies[k] {
+				n++
+				if short[k] == 0 {
+					return false
+				}
+			}
+		}
+		return n > 0
+	}
+	sessions := 0
+	for k := 0; k < max; k++ {
+		kk := k
+		sim.ParamHook = func(pp *tss.Parameters) {
+			pp.SetRand(&detReader{seed: []byte(fmt.Sprintf("short/%d/%d/%s/%s", env.Seed, kk, pp.PartyID().Id, pp.PartyID().Moniker))})
+		}
+		w, in, err := s.make(env.Seed + int64(k))
+		if err != nil {
+			r.Inconcl("cannot build: %v", err)
+			return
+		}
+		w.Run(sim.StartsThen(sim.FIFO), nil)
+		sessions++
+		var shortHere []string
+		for _, m := range w.Msgs {
+			dm, err := sim.DecodeWire(m.Wire)
+			if err != nil {
+				continue
+			}
+			for _, f := range sim.FieldsOfMsg(dm) {
+				vals, _ := sim.GetField(m.Wire, f.Name)
+				key := m.Short + "." + f.Name
+				for _, v := range vals {
+					if len(v) > maxLen[key] {
+						maxLen[key] = len(v)
+					}
+					if fv, ok := first[key]; !ok {
+						first[key] = string(v)
+					} else if fv != string(v) && !f.Repeated {
+						varies[key] = true
+					}
+				}
+				if f.Repeated && len(vals) > 0 {
+					varies[key] = true
+				}
+				for _, v := range vals {
+					if maxLen[key] >= 32 && len(v) < maxLen[key] && (!f.Repeated || maxLen[key] == 32) {
+						short[key]++
+						shortHere = append(shortHere, fmt.Sprintf("%s=%dB", key, len(v)))
+					}
+				}
+			}
+		}
+		s.outcome(r, w, in, "short-fields")
+		if r.Verdict == core.Violated {
+			r.Msg += fmt.Sprintf(" [session %d of the short-encoding series; shorter-than-usual fields in it: %v]", k, shortHere)
+			r.Witness = strings.Join(w.Trace(100), "\n")
+			return
+		}
+		if k >= 20 && allSeen() {
+			break
+		}
+	}
+	r.Count("short_field_sessions", int64(sessions))
+	for k, l := range maxLen {
+		if short[k] > 0 {
+			r.AddSet("fields_seen_with_a_leading_zero_byte", fmt.Sprintf("%s:%s", s.Proto, k))
+		} else if l == 32 && varies[k] {
+			r.AddSet("fields_of_32_bytes_never_seen_short", fmt.Sprintf("%s:%s", s.Proto, k))
+		}
+	}
+	if len(short) == 0 {
+		r.Inconcl("%d sessions and no field was ever shorter than usual", sessions)
+		return
+	}
+	r.NonTrivial = true
 }
